@@ -157,26 +157,10 @@ Proof. split; vm_compute; reflexivity. Qed.
    written once, referenced twice); states that are not dicts (a tuple, the int 0, False, None, an empty tuple); an object without
    state; a __reduce__ constructor object whose argument tuple holds the shared object.  The guard holds, `supported` holds, and the
    round trip computed through dumps_model / get_tree / construct returns the value itself *)
-Definition wobjects : pval :=
-  let sh := plist 60 [pint 1; pstr_ 61 "x"] in
-  let o := PObj 62 (s "values") (s "Plain") HKNone [] OKState
-             (pdict 63 [(kstr "a", sh); (kstr "coef_", PArr 64 false (s "numpy") (s "ndarray") (s "tok-coef"))]) in
-  let arr := PObj 65 (s "scipy.sparse._csr") (s "csr_array") HKNone [] OKState
-               (pdict 66 [(kstr "_shape", ptuple 67 [pint 3; pint 4]); (kstr "data", PArr 68 false (s "numpy") (s "ndarray") (s "tok-data"));
-                          (kstr "maxprint", pint 50)]) in
-  ptuple 69 [plist 70 [o; sh; o]; arr;
-             PObj 71 (s "values") (s "WithState") HKNone [] OKState (pdict 72 [(kstr "payload", o)]);
-             PObj 73 (s "values") (s "FalsyState") HKNone [] OKState (ptuple 74 [pint 1; sh]);
-             PObj 75 (s "values") (s "FalsyState") HKNone [] OKState (pint 0);
-             PObj 76 (s "values") (s "FalsyState") HKNone [] OKState (PScalar 77 (SBool false));
-             PObj 78 (s "values") (s "FalsyState") HKNone [] OKState (PScalar 79 SNone);
-             PObj 80 (s "values") (s "FalsyState") HKNone [] OKState (ptuple empty_tuple_id []);
-             PObj 81 (s "values") (s "NoState") HKNone [] OKNoState pnone;
-             PObj 82 (s "values") (s "ReduceCtor") HKNone [] OKReduce (ptuple 83 [o; pint 0])].
 Example C05_nonvacuous_objects :
-  c05_guard wf (wd Snapshot.current) wbase wobjects = true /\ supported wf wobjects = true
-  /\ roundtrip Snapshot.registry Snapshot.current wf (wd Snapshot.current) wbase wobjects = Ok wobjects
-  /\ (do a <- dumps_model (wd Snapshot.current) wbase wobjects; Ok (map fst (a_members a))) = Ok [s "64.npy"; s "68.npy"].
+  c05_guard wf (wd Snapshot.current) wbase w_objects = true /\ supported wf w_objects = true
+  /\ roundtrip Snapshot.registry Snapshot.current wf (wd Snapshot.current) wbase w_objects = Ok w_objects
+  /\ (do a <- dumps_model (wd Snapshot.current) wbase w_objects; Ok (map fst (a_members a))) = Ok [s "64.npy"; s "68.npy"].
 Proof. repeat split; vm_compute; reflexivity. Qed.
 
 (* a class from whose NAME the loader derives a hidden payload is outside (finding D09: frozenset / deque), and so is an object
